@@ -4,6 +4,7 @@ Each function documents the library fact it encodes (rows of DESIGN §3).  Unkno
 """
 import collections
 import math
+import os
 from fractions import Fraction as Fr
 
 from . import expr as X
@@ -153,6 +154,16 @@ ARITH = {
 CMP = {'Lt': 'lt', 'LtE': 'le', 'Gt': 'gt', 'GtE': 'ge', 'Eq': 'eq', 'NotEq': 'ne'}
 
 
+# (library call, keyword) pairs whose value cannot change what the model computes; filled from an audit of the clean tree, the seeded and the
+# benign sets (VERIF_KW_AUDIT=<file> logs instead of refusing).  Everything else that a model function does not read is refused.
+KW_NEUTRAL = {
+    ('collections.namedtuple', 'module'),       # sets __module__ of the record class only
+    ('functools.lru_cache', 'maxsize'),         # eviction policy of a cache of a function's own results
+    ('functools.lru_cache', 'typed'),
+    ('builtins.property', 'doc'),               # the docstring of a property
+}
+KW_GUARD_ARMED = True
+
 MA_ELEMENTWISE = {'sin', 'cos', 'tan', 'arcsin', 'arccos', 'arctan', 'arctan2', 'sinh', 'cosh', 'tanh', 'exp', 'log', 'log10', 'log2', 'sqrt', 'hypot', 'radians',
                   'degrees', 'deg2rad', 'rad2deg', 'floor', 'ceil', 'rint', 'absolute', 'fabs', 'negative', 'power', 'square', 'sign'}
 
@@ -211,6 +222,51 @@ class Models:
         return None
 
     # -------------------------------------------------------------------------------------------
+    _kw_src = {}
+
+    def kw_guard(self, interp, h, kwargs, what, node, pos=2):
+        """A keyword argument that the model function for a library call never mentions is necessarily ignored by it: the answer would be
+        the answer for another call.  Such a call is refused (fail-closed) unless the pair is listed in KW_NEUTRAL (keywords that spell out the
+        default or cannot change the modelled result)."""
+        if not kwargs:
+            return
+        import inspect
+        import re
+        code = getattr(h, '__code__', None)
+        if code is None:
+            return
+        src = self._kw_src.get(code)
+        if src is None:
+            try:
+                src = inspect.getsource(h)
+            except (OSError, TypeError):
+                src = ''
+            kwn = re.escape(code.co_varnames[pos]) if code.co_argcount > pos else 'kw'
+            lines = src.split('\n')
+            k0 = next((i for i, ln in enumerate(lines) if ln.lstrip().startswith('def ') or ' lambda ' in ln), None)
+            body = '\n'.join(lines[k0 + 1:]) if k0 is not None and lines[k0].lstrip().startswith('def ') else ''
+            # a handler that hands `kw` on to another function (or reads it with a computed name) is not judged
+            lit = r'(\'\w+\'|"\w+")'
+            rest = re.sub(rf'kwarg\(\w+, {kwn}, [^,]+, {lit}|\b{kwn}\.get\({lit}|\b{kwn}\.pop\({lit}|\b{kwn}\[{lit}\]|{lit} (not )?in {kwn}\b|\bnot {kwn}\b|\bif {kwn}\b|\bor {kwn}\b|\band {kwn}\b', '', body)
+            if not body or re.search(rf'\b{kwn}\b', rest):
+                src = ''
+            self._kw_src[code] = src
+        if not src:
+            return
+        for k in kwargs:
+            if f"'{k}'" in src or f'"{k}"' in src:
+                continue
+            if (what, k) in KW_NEUTRAL or ('*', k) in KW_NEUTRAL:
+                continue
+            if os.environ.get('VERIF_KW_AUDIT') or not KW_GUARD_ARMED:
+                try:
+                    with open(os.environ.get('VERIF_KW_AUDIT', '/tmp/kw_audit.log'), 'a') as fh:
+                        fh.write(f"{what} {k} repo={os.environ.get('VERIF_REPO', '/repo')} line={getattr(node, 'lineno', '?')}\n")
+                except OSError:
+                    pass
+                continue
+            raise AnalysisError(f'keyword argument {k}= of {what} is not read by the model of that function', node, where=_where(interp, node))
+
     def call(self, interp, fn, args, kwargs, node, frame=None):
         if isinstance(fn, ExtRef):
             # an abstract stand-in handed in by a rule (e.g. C20's 3-D field) answers library calls it takes part in itself
@@ -229,6 +285,7 @@ class Models:
                     return bridge.real_call(interp, fn.path, fn, args, kwargs, node)
                 except AnalysisError as e:
                     raise AnalysisError(e.msg, node, where=_where(interp, node))
+            self.kw_guard(interp, h, kwargs, fn.path, node)
             return h(interp, args, kwargs, node)
         if isinstance(fn, ModelMethod):
             return self.call_method(interp, fn.obj, fn.name, args, kwargs, node)
@@ -254,6 +311,7 @@ class Models:
         for klass in type(obj).__mro__:
             h = self.methods.get((klass, name))
             if h is not None:
+                self.kw_guard(interp, h, kwargs, f'{klass.__name__}.{name}', node, pos=3)
                 return h(interp, obj, args, kwargs, node)
         from . import bridge
         from .vec import Vec, Sc
